@@ -26,6 +26,8 @@ pub fn run(args: &Args, out: Out) {
         "resp-faults" => response::run_faults(args, out),
         "status-all" => response::run_status(args, out),
         "exchange-gen" => exchange::run_gen(args, out),
+        "upload-diskfull" => exchange::run_diskfull(args, out),
+        "diskfull-child" => exchange::run_diskfull_child(args, out),
         "recv-body" => exchange::run_recv_body(args, out),
         "limits" => exchange::run_limits(args, out),
         "permit-race" => server::run_permit_race(args, out),
